@@ -530,6 +530,55 @@ def energy_form(ctx, prec="same", eig="diag", dpat="ortho", claims=("compute", "
         ctx.prove("bohm(6x6) reduces to the homogeneous-inclusion energy", ctx.eq(base["bohm(6x6)"], base["ellipsoid(6x6)"]))
 
 
+# ------------------------------------------------------------------------------------------------ the quadrature sum itself
+
+def dijkl(ctx, k=1, what="scale"):
+    """real Dijkl / sphInt on k quadrature nodes with symbolic angles and weights: the result is unchanged by a uniform
+    scaling of the semi-axes (so the energy scales with the volume), and does not depend on the 3x3 inversion routine"""
+    c11 = ctx.real("c11", (2.0, 3.0)); c12 = ctx.real("c12", (0.5, 1.5)); c44 = ctx.real("c44", (0.5, 1.5))
+    ctx.assume(c11 > 0); ctx.assume(c44 > 0); ctx.assume(c11 > c12); ctx.assume(c11 + 2 * c12 > 0)
+    r = ctx.reals("r", 3, (0.5, 2.0)); s = ctx.real("s", (0.5, 2.0))
+    for i in R3:
+        ctx.assume(r[i] > 0)
+    ctx.assume(s > 0)
+    se = StrainEnergy()
+    se.setEllipsoidal()
+    se.setElasticConstants(c11, c12, c44)
+    d = se.description
+    # state of the integrator: k nodes (the Lebedev table is replaced by symbolic nodes)
+    d.midPhiGrid = ctx.reals("phi", k, (0.1, 1.4)); d.midThetaGrid = ctx.reals("theta", k, (0.1, 1.4)); d.midWeights = ctx.reals("w", k, (0.1, 1.0))
+    c4 = se.params.cMatrix_4th
+    rr = np.array([r[0], r[1], r[2]])
+    D0 = d.Dijkl(rr, c4)
+    ctx.observe("D", D0)
+    ctx.prove("D is a 3x3x3x3 array", np.shape(D0) == (3, 3, 3, 3))
+    if what == "scale":
+        D1 = d.Dijkl(s * rr, c4)
+        for i in R3:
+            for j in R3:
+                ctx.prove("Dijkl(s r) = Dijkl(r)", ctx.all([ctx.eq(D1[i, j, k_, l], D0[i, j, k_, l]) for k_ in R3 for l in R3]))
+    else:
+        # what the configured inversion routine is handed: the symmetric Christoffel matrices C_iklj n_k n_l of the nodes
+        seen = []
+        orig = d._ohm_inverse
+
+        def recorder(m):
+            seen.append(m)
+            return orig(m)
+        d._ohm_inverse = recorder
+        d.Dijkl(rr, c4)
+        ctx.prove("inversion routine called once with a (3,3,k) array", len(seen) == 1 and np.shape(seen[0]) == (3, 3, k))
+        if len(seen) == 1 and np.shape(seen[0]) == (3, 3, k):
+            m = seen[0]
+            ctx.observe("ohm_arg", m)
+            for q in range(k):
+                th, ph = d.midThetaGrid[q], d.midPhiGrid[q]
+                n = [np.sin(th) * np.cos(ph), np.sin(th) * np.sin(ph), np.cos(th)]
+                ctx.prove("argument is symmetric", ctx.all([ctx.eq(m[i, j, q], m[j, i, q]) for i in R3 for j in R3]))
+                ctx.prove("argument is C_iklj n_k n_l with n the unit normal of the node",
+                          ctx.all([ctx.eq(m[i, j, q], sum(c4[i, a_, b_, j] * n[a_] * n[b_] for a_ in R3 for b_ in R3), atol=1e-12) for i in R3 for j in R3]))
+
+
 _F_CONV = [convert2To4rankTensor, convert4To2rankTensor, convertVecTo2rankTensor, convert2rankToVec]
 _E = EllipsoidalEnergyDescription
 _SE = StrainEnergy
@@ -578,4 +627,9 @@ HARNESSES = [
             stubs=["EllipsoidalEnergyDescription.Dijkl: returns the opaque D", "np.linalg.inv(6x6): exact inverse (block diagonal after simplification)"],
             params={"quick": [{"prec": "same"}, {"prec": "equal"}, {"prec": "other"}],
                     "thorough": [{"prec": "same"}, {"prec": "equal"}, {"prec": "other"}]}),
+    Harness("C16.dijkl", dijkl, functions=_F_SE + [_E.Dijkl, _E.sphInt, _E._n, _E._beta, _E._ohm_quickInverse, _E._ohm_npinv], opts={"ob_timeout": 40.0, "inv_hook": _exact_inv},
+            assumptions=["positive-definite cubic stiffness, semi-axes > 0, scaling s > 0", "sin/cos uninterpreted with sin^2 + cos^2 = 1"],
+            stubs=["Lebedev node table replaced by k nodes with symbolic angles and weights (state of the integrator)", "np.linalg.inv on a (k,3,3) stack: exact inverse"],
+            bounds={"quadrature nodes": "k"},
+            params={"quick": [{"k": 1, "what": "scale"}, {"k": 2, "what": "ohm_arg"}], "thorough": [{"k": 2, "what": "scale"}, {"k": 3, "what": "ohm_arg"}]}),
 ]
